@@ -26,10 +26,10 @@ LEVEL = 'exploration'
 COUNTS = {'quick': 260, 'thorough': 6000}
 BUDGET = {'quick': 110, 'thorough': 1500}
 TIMEOUT = 240
-SHRINK_LISTS = [['hops'], ['files'], ['ops']]
+SHRINK_LISTS = [['hops'], ['files'], ['ops'], ['pre_ops']]
 EXPECTED_PROBES = ['roundtrip_json', 'roundtrip_xlsx', 'chain', 'pf_compared', 'init_compared', 'truncated', 'lost_write',
                    'load_failed_loudly', 'params_compared', 'rewrites_compared',
-                   'mpc_roundtrip', 'mpc_pf_compared', 'mpc_two_on_one_bus', 'mpc_offline_PQ']
+                   'mpc_roundtrip', 'mpc_pf_compared', 'mpc_two_on_one_bus', 'mpc_offline_PQ', 'pre_alter', 'pre_set_alter_same', 'pre_status_off']
 RULE = ('plan = (stock case incl. raw/dyr and matpower sources, hop sequence over {json, xlsx}, stream or file, optional storage fault); '
         'non-trivial = at least one reload was compared or a fault was injected; distinct = (case, hops, fault kind)')
 ASSUMPTIONS = [
@@ -63,6 +63,12 @@ def plans(seed, tier, count):
         out.append({'property': PROP, 'seed': core.H('fix13', i), 'case': c, 'hops': ['json' if i % 2 else 'xlsx'], 'via': 'file', 'fault': None})
     for j, (ext, files) in enumerate(sorted(REWRITE.items())):
         out.insert(j, {'property': PROP, 'seed': core.H('fix13rw', j), 'kind': 'rewrite', 'ext': ext, 'files': files[:2] + files[:1]})
+    for j, (c, fmt, pre) in enumerate([
+            ('ieee14/ieee14.json', 'json', [{'op': 'status_off', 'target': 'Line.x', 'pick': 0.0, 'factor': 1.0},
+                                            {'op': 'set_alter_same', 'target': 'PQ.p0', 'pick': 0.3, 'factor': 1.5}]),
+            ('kundur/kundur_full.xlsx', 'xlsx', [{'op': 'set_alter_same', 'target': 'GENROU.M', 'pick': 0.5, 'factor': 0.9},
+                                                 {'op': 'alter', 'target': 'PQ.q0', 'pick': 0.9, 'factor': 1.1}])]):
+        out.insert(j, {'property': PROP, 'seed': core.H('fix13pre', j), 'case': c, 'hops': [fmt], 'via': 'file', 'fault': None, 'pre_ops': pre})
     for j, (c, ops, mode) in enumerate(MPC_FIXED):
         out.insert(j, {'property': PROP, 'seed': core.H('fix13mpc', j), 'kind': 'mpc', 'case': c, 'ops': ops, 'bus_idx': mode, 'order': 'file'})
     i = 0
@@ -102,8 +108,15 @@ def elaborate(stub):
         fault = {'kind': r.choice(['truncate', 'truncate', 'lost']), 'frac': round(r.random(), 4), 'bit': r.randint(0, 7)}
         if fault['kind'] == 'flip':
             hops[-1] = 'xlsx'
+    po = stream(seed, 'pre_ops')
+    pre_ops = []
+    if fault is None and po.random() < 0.45:
+        # the system is not exported as loaded: parameters were altered through the public calls first (mid-life export)
+        for _ in range(po.choice([1, 1, 2, 3])):
+            pre_ops.append({'op': po.choice(['alter', 'alter', 'set_alter_same', 'status_off']), 'target': po.choice(PRE_TARGETS),
+                            'pick': round(po.random(), 4), 'factor': po.choice([0.5, 0.9, 1.1, 1.5])})
     return {'property': PROP, 'seed': seed, 'case': case, 'hops': hops, 'via': r.choice(['file', 'stream']), 'fault': fault,
-            'subprocess': stub.get('tier') == 'thorough' and r.random() < 0.1}
+            'pre_ops': pre_ops, 'subprocess': stub.get('tier') == 'thorough' and r.random() < 0.1}
 
 
 # --------------------------------------------------------------------------------------------
@@ -262,6 +275,39 @@ def run_rewrite(plan, res, v, probes, d):
     return res
 
 
+PRE_TARGETS = ['PQ.p0', 'PQ.q0', 'PV.p0', 'PV.v0', 'Line.x', 'Line.b', 'Shunt.b', 'Slack.v0', 'GENROU.M', 'GENROU.D', 'GENCLS.M', 'TGOV1.R',
+               'EXDC2.KA', 'Toggle.t']
+STATUS_TARGETS = {'PQ.p0': 'PQ', 'PQ.q0': 'PQ', 'Line.x': 'Line', 'Line.b': 'Line', 'Shunt.b': 'Shunt'}
+
+
+def apply_pre_ops(ss, ref, ops, probes):
+    """Alterations through the public calls before the export; ``ref`` (input-base data as loaded) follows by the book."""
+    for op in ops:
+        mname, pn = op['target'].split('.')
+        mdl = ss.models.get(mname)
+        if mdl is None or not mdl.n or mname not in ref:
+            continue
+        i = int(op['pick'] * mdl.n) % mdl.n
+        idx = mdl.idx.v[i]
+        if op['op'] == 'status_off':
+            if op['target'] not in STATUS_TARGETS:
+                continue
+            # the status in effect is cleared directly, then confirmed through the alteration call (both representations must follow)
+            mdl.set('u', idx, 'v', 0)
+            mdl.alter('u', idx, 0)
+            ref[mname]['u'][i] = 0.0
+            probes['pre_status_off'] = probes.get('pre_status_off', 0) + 1
+            continue
+        p = mdl.params[pn]
+        old_in = float(p.vin[i])
+        new_in = old_in * op['factor']
+        if op['op'] == 'set_alter_same':
+            mdl.set(pn, idx, 'v', float(p.v[i]) * op['factor'])
+        mdl.alter(pn, idx, new_in)
+        ref[mname][pn][i] = norm(new_in)
+        probes['pre_' + op['op']] = probes.get('pre_' + op['op'], 0) + 1
+
+
 MPC_MODELS = ('Bus', 'PQ', 'PV', 'Slack', 'Shunt', 'Line', 'Area')
 # (case, operations before the export, bus index typing): several loads / shunts on one bus, devices out of service
 MPC_FIXED = [
@@ -405,6 +451,8 @@ def execute(plan):
         ss0 = build_system(plan['case'])
         ref = data_of(ss0)
         cons = constraints_of(ss0)
+        if plan.get('pre_ops'):
+            apply_pre_ops(ss0, ref, plan['pre_ops'], probes)
         cur = ss0
         handle = None
         datas = []
